@@ -356,7 +356,11 @@ func vfReportViolation(t *testing.T, prop, tier string, seed, idx, cs uint64, re
 	}
 	full := write(orig, res, false, "-full")
 	var bestRes *vfRunResult
+	deadline := time.Now().Add(25 * time.Second)
 	best := vfShrink(orig, *vfFlagShrink, func(c []int) bool {
+		if time.Now().After(deadline) {
+			return false
+		}
 		r := vfRunOne(t, prop, tier, *vfFlagVariant, vfNewReplayTape(c), cs, known)
 		if r.Verdict == "violation" && r.Viol.Prop == v.Prop && r.Viol.Oracle == v.Oracle && r.Viol.Key == v.Key {
 			bestRes = r
